@@ -139,6 +139,16 @@ class CallGraph:
                 if f.attr in self.methods_by_name:
                     return list(self.methods_by_name[f.attr]), "resolved"
                 return self._indirect(call), "indirect"
+            # helper functions of rule modules take the rule as an explicit first parameter called `self`
+            if isinstance(v, ast.Name) and v.id == "self" and fi.cls is None and fi.params and fi.params[0] == "self":
+                rc = p.classes.get("vsg.rule:Rule")
+                if rc is not None:
+                    out = []
+                    for ci in [rc] + rc.all_subclasses():
+                        if f.attr in ci.methods and ci.methods[f.attr] not in out:
+                            out.append(ci.methods[f.attr])
+                    if out:
+                        return out, "resolved"
             # module / class attribute chain
             ent = p.resolve_expr(mod, f, local_names=locs)
             if ent is not None:
